@@ -19,7 +19,7 @@ DOC = {
  "C03.R6": "stop / kill requests are always attempted: send_stop and send_signal take their port slot on every path, consult no status, deliver their argument; ActorCell::stop/kill always forward",
  "C03.R7": "the message step does not suspend between the completed priority pick and the start of the handler race (no await in between)",
  "C03.R8": "kill_and_wait / stop_and_wait / drain_and_wait issue exactly their own kind of request, on every path",
- "C03.R5": "who-may-touch: stop receiver only by priority listen and Drop; signal receiver only by sink, listen and Drop",
+ "C03.R5": "who-may-touch: stop and supervision receivers only by priority listen and Drop (a supervision event is taken only by the prioritised pick, so none is handled once a stop was picked); signal receiver only by sink, listen and Drop",
 }
 
 ORDER = [("Signal", r"messages::Signal>"), ("Stop", r"StopMessage"), ("Supervision", r"SupervisionEvent"), ("Message", r"MuxedMessage")]
@@ -249,7 +249,7 @@ def r5(run, db):
     allowed_stop = set(x.id for l in ls for x in db.family(l.id))
     drops = [f.id for f in db.crate_fns("ractor") if f.raw.get("impl_trait", "").endswith("ops::Drop") and "ActorPortSet" in (f.raw.get("impl_self") or "")]
     run.anchor("ActorPortSet::drop", len(drops), 1)
-    nsig = nstop = 0
+    nsig = nstop = nsup = 0
     for f in db.crate_fns("ractor"):
         for site, s in f.stmts():
             if s["k"] != "assign" or s["rv"]["k"] not in ("ref", "use"):
@@ -259,18 +259,21 @@ def r5(run, db):
                 continue
             names = [e.split(":")[2] for e in p[1] if e.startswith("f:") and len(e.split(":")) > 2]
             for nm in names:
-                if nm in ("signal_rx", "stop_rx"):
+                if nm in ("signal_rx", "stop_rx", "supervisor_rx"):
                     # is this a field of the port set?  base local type
                     okset = (allowed_sig if nm == "signal_rx" else allowed_stop) | set(drops)
                     ctor = bool(f.aggregates(adt="ActorPortSet"))
                     if nm == "signal_rx":
                         nsig += 1
-                    else:
+                    elif nm == "stop_rx":
                         nstop += 1
+                    else:
+                        nsup += 1
                     run.check(f.id in okset or ctor, "touch:%s:%s" % (nm, f.id), "%s touched in allowed role %s" % (nm, f.id),
                               "%s is touched by %s, which is neither the priority listen%s nor Drop" % (nm, f.id, ", the sink" if nm == "signal_rx" else ""), f.where(s.get("l")))
     run.anchor("signal_rx touch sites", nsig, 3)
     run.anchor("stop_rx touch sites", nstop, 2)
+    run.anchor("supervisor_rx touch sites", nsup, 2)
 
 
 def r6(run, db):
